@@ -195,6 +195,13 @@ theorem failed_read_raises (remote : Bytes) (maxReq chunk fuel c : Nat) (loc : B
     (hc : 0 < chunk) : SftpGet.transfer remote maxReq chunk (fuel + 1) loc (.fail c :: rest) = .raised c :=
   SftpGet.transfer_fail hc
 
+/-- **A dropped session raises**: when the server hangs up instead of answering a read (channel closed, transport
+    gone: the client reads EOF from the socket), the transfer raises (SSHException "Server connection dropped", code
+    3000 in the model) — it does not end as if the file were over. -/
+theorem dropped_session_raises (remote : Bytes) (maxReq chunk fuel : Nat) (loc : Bytes) (rest : List SftpGet.RdOut)
+    (hc : 0 < chunk) : SftpGet.transfer remote maxReq chunk (fuel + 1) loc (.drop :: rest) = .raised 3000 :=
+  SftpGet.transfer_drop hc
+
 /-- a failing stat or open raises before anything is transferred -/
 theorem failed_stat_or_open_raises (remote : Bytes) (maxReq chunk statCode openCode : Nat) (plan : List SftpGet.RdOut)
     (fuel reported : Nat) (h : statCode ≠ 0 ∨ openCode ≠ 0) :
